@@ -44,6 +44,19 @@ def handle : List String → Option String
       let r := call (fun c => some (Int.ofNat c.length)) o e
       some s!"ok {if r.2.1.needsOpt then 1 else 0} {r.2.1.consts.length} {r.2.2} {if r.2.1.consts == e.consts then 1 else 0}"
     | _ => none
+  | ["refit", ks] => do
+    -- scripted `EquationRegressor.fit`: attempt `i` (0 = first fit) leaves the constants `[i]` and has fitness `ks[i]`
+    let keys ← (words ks).mapM OpsHof.key?
+    match keys with
+    | [] => none
+    | _ :: rest =>
+      let base : List Int → Key := fun c => match c with
+        | [i] => (keys[i.toNat]?).getD none
+        | _ => none
+      let mk : Nat → Oracle Int := fun i => ⟨[], 0, [Int.ofNat i]⟩
+      let retries := (List.range rest.length).map fun j => mk (j + 1)
+      let r := refit base (mk 0) retries ⟨[-1], true, 1⟩
+      some s!"ok {OpsHof.showKey r.1} ; {showInts r.2.consts} ; {if r.2.needsOpt then 1 else 0}"
   | "agraph" :: us :: ops => do
     -- state after every op, with the real simplifiers; constants are integers, default constant = 1
     let useSimp := us == "1"
